@@ -17,9 +17,18 @@ pub fn run(thorough: bool) -> Vec<Part> {
         part.assume("error kinds are compared by the element at fault; `InvalidRequest` names both a malformed/overlong request line and an empty Accept-Encoding value");
         let mut cfg = Cfg::base("C02", "grammar-alphabet", alphabet::grammar(if thorough { 1 } else { 0 }), 40);
         cfg.empty_reads = false;
-        let limits = Limits { max_states: 6_000_000, max_secs: if thorough { 3000.0 } else { 120.0 }, ..Default::default() };
+        let limits = Limits { max_states: 12_000_000, max_secs: if thorough { 1500.0 } else { 120.0 }, ..Default::default() };
         let st = bfs(&cfg, &limits, workers());
         record(&mut part, "grammar-alphabet", &st);
+        if thorough {
+            let mut full = Cfg::base("C02", "grammar-alphabet-full", alphabet::grammar(2), 40);
+            full.empty_reads = false;
+            let stf = bfs(&full, &Limits { max_states: 5_000_000, max_secs: 600.0, ..Default::default() }, workers());
+            record(&mut part, "grammar-alphabet-full (capped)", &stf);
+            for (v, _) in &stf.violations {
+                part.violations.push(v.clone());
+            }
+        }
         {
             let tl = crate::connx::stateless_sequences(&cfg, if thorough { 4 } else { 3 }, workers());
             crate::connx::record_stateless(&mut part, &cfg.label, &tl);
